@@ -30,15 +30,15 @@ type NetAction struct {
 
 // NetRequest is one request that reached the simulated network.
 type NetRequest struct {
-	Seq     int
-	At      time.Time
-	Method  string
-	URL     string
-	Host    string
-	Path    string
-	Header  http.Header
-	Body    []byte
-	Action  NetAction
+	Seq      int
+	At       time.Time
+	Method   string
+	URL      string
+	Host     string
+	Path     string
+	Header   http.Header
+	Body     []byte
+	Action   NetAction
 	Resolved []string // answer the resolver last gave for this host (policy-relevant fact)
 }
 
